@@ -62,6 +62,7 @@ type vfScenario struct {
 	Post     bool                   `json:"post"` // stateful graphs: also install state post-handlers
 	HMod     bool                   `json:"hmod"` // state handlers modify the value they pass on (pre adds key "pre", post adds key "q<node>")
 	SMod     int                    `json:"smod"` // k > 0: the k-th resume call passes a state modifier that adds 100 to the counter
+	SHand    bool                   `json:"shand"`  // state handlers installed in their stream form (WithStreamStatePre/PostHandler)
 	Lower    string                 `json:"lower"`  // "chain": build with compose.Chain from Stages; Edges/Branches hold the lowered graph the rule judges by
 	Stages   []vfStage              `json:"stages"`
 	Echo     []string               `json:"echo"` // nodes that return their input unchanged (so equal keys can meet at a fan-in)
@@ -347,6 +348,13 @@ func (r *vfRun) nodeLambda(prefix string, sc *vfScenario, name string) *Lambda {
 		if abort {
 			return nil, InterruptAndRerun
 		}
+		if rank, ok := sc.Delay[name]; ok && rank > 0 && sc.State && !abort {
+			// a slow node sits inside ProcessState for a while: handlers of faster siblings must wait for it
+			_ = ProcessState[*vfState](ctx, func(_ context.Context, st *vfState) error {
+				r.csHold(rc.rec, st, prefix, "body", name, time.Duration(rank)*120*time.Microsecond)
+				return nil
+			})
+		}
 		if rank, ok := sc.Delay[name]; ok && r.gates != nil {
 			// wait until no body with a smaller rank is still running (bounded: never block forever)
 			g := r.gates
@@ -428,9 +436,14 @@ func (e *vfErrWrap) Unwrap() error { return e.cause }
 
 // one critical section on the state: read-modify-write of the counter with a yield in between, logged inside the lock
 func (r *vfRun) cs(rec *vfRec, st *vfState, prefix, kind, name string) {
+	r.csHold(rec, st, prefix, kind, name, 15*time.Microsecond)
+}
+
+// csHold: the section keeps the state (and, if the framework does its job, the lock) for `hold` between reading and writing the counter
+func (r *vfRun) csHold(rec *vfRec, st *vfState, prefix, kind, name string, hold time.Duration) {
 	seq := st.Count
 	runtime.Gosched()
-	time.Sleep(15 * time.Microsecond)
+	time.Sleep(hold)
 	st.Count = seq + 1
 	rec.log(map[string]any{"ev": "cs", "p": prefix, "k": kind, "n": name, "seq": seq})
 }
@@ -553,6 +566,26 @@ func (r *vfRun) branch(prefix string, idx int, b vfBranch) *GraphBranch {
 	}, ends)
 }
 
+func vfConcatMaps(sr *schema.StreamReader[map[string]any]) (map[string]any, error) {
+	defer sr.Close()
+	var out map[string]any
+	for {
+		c, err := sr.Recv()
+		if err != nil {
+			if err == ioEOF {
+				return out, nil
+			}
+			return nil, err
+		}
+		if out == nil {
+			out = map[string]any{}
+		}
+		for k, v := range c {
+			out[k] = v
+		}
+	}
+}
+
 func vfBare(sc *vfScenario, name string) bool {
 	for _, st := range sc.Stages {
 		if st.K == "p" && vfIn(st.Ns, name) {
@@ -601,9 +634,37 @@ func (r *vfRun) buildChain(sc *vfScenario) (*Chain[map[string]any, map[string]an
 func (r *vfRun) nodeOpts(prefix string, sc *vfScenario, name string) []GraphAddNodeOpt {
 	var opts []GraphAddNodeOpt
 	if sc.State {
-		opts = append(opts, WithStatePreHandler(r.preHandler(prefix, sc, name)))
-		if sc.Post {
-			opts = append(opts, WithStatePostHandler(r.postHandler(prefix, sc, name)))
+		if sc.SHand {
+			pre, post := r.preHandler(prefix, sc, name), r.postHandler(prefix, sc, name)
+			opts = append(opts, WithStreamStatePreHandler(func(ctx context.Context, in *schema.StreamReader[map[string]any], st *vfState) (*schema.StreamReader[map[string]any], error) {
+				v, err := vfConcatMaps(in)
+				if err != nil {
+					return nil, err
+				}
+				v, err = pre(ctx, v, st)
+				if err != nil {
+					return nil, err
+				}
+				return schema.StreamReaderFromArray([]map[string]any{v}), nil
+			}))
+			if sc.Post {
+				opts = append(opts, WithStreamStatePostHandler(func(ctx context.Context, out *schema.StreamReader[map[string]any], st *vfState) (*schema.StreamReader[map[string]any], error) {
+					v, err := vfConcatMaps(out)
+					if err != nil {
+						return nil, err
+					}
+					v, err = post(ctx, v, st)
+					if err != nil {
+						return nil, err
+					}
+					return schema.StreamReaderFromArray([]map[string]any{v}), nil
+				}))
+			}
+		} else {
+			opts = append(opts, WithStatePreHandler(r.preHandler(prefix, sc, name)))
+			if sc.Post {
+				opts = append(opts, WithStatePostHandler(r.postHandler(prefix, sc, name)))
+			}
 		}
 	}
 	if sub, ok := sc.Sub[name]; ok {
